@@ -314,8 +314,11 @@ func (s *State) evalInternal(node any) object.Object { //nolint:funlen,gocognit,
 		var keepRef func(int) bool
 		if f.Type() == object.EXTENSION {
 			// Extensions declaring an argument as ANY (e.g. type()) get to see references; everything else gets values.
+			// Only for the last argument: a reference kept while later arguments are evaluated would show their
+			// effects (min(v, ++v)) or dangle (min(x, del(x))).
 			argTypes := f.(object.Extension).ArgTypes
-			keepRef = func(i int) bool { return i < len(argTypes) && argTypes[i] == object.ANY }
+			last := len(node.Arguments) - 1
+			keepRef = func(i int) bool { return i == last && i < len(argTypes) && argTypes[i] == object.ANY }
 		}
 		args, oerr := s.evalExpressions(node.Arguments, keepRef)
 		if oerr != nil {
